@@ -82,8 +82,8 @@ ANCHORS = [
     "trimesh/grouping.py:group_rows",
 ]
 SHARDS = {"quick": 1, "thorough": 16}
-BUDGET = {"quick": 45, "thorough": 480}
-MIN_EVENTS = {"quick": 4000, "thorough": 20000}
+BUDGET = {"quick": 55, "thorough": 480}
+MIN_EVENTS = {"quick": 2500, "thorough": 20000}
 ASSUMPTIONS = [
     "the pure-Python counting oracle in this file is the definition (it shares no code with trimesh)",
     "adjacency follows trimesh's documented definition: a sorted edge occurring exactly twice among all "
